@@ -51,7 +51,7 @@ func init() {
 	propertyPlans["C15"] = &PropertyPlan{ID: "C15",
 		NotDecided: []string{"bounding box == span from corner(0,0) to corner(width,height) exactly (double rounding at exact ties; identity not proved)",
 			"points closer than 1e-9 to a tile border", "IEEE-754 rounding of the float64 operations (float64 is treated as a real number)",
-			"the contents of the EPSG axis table (data; IsLatLon is trusted)"},
+			"the contents of the EPSG axis table (data); axisOrderIsLatLon (regular expressions) is trusted"},
 		Assumptions: []string{"float64 treated as real numbers", "points less than 9e18 tiles away from the origin (uint(x) of larger values is implementation-defined)"},
 	}
 }
